@@ -13,7 +13,7 @@ ASSUMPTIONS = ['definedness is a data-flow fact of the executor: a byte is undef
 
 def jobs(tier, seed):
     out = []
-    for j in c01.jobs(tier, seed):
+    for j in [x for x in c01.jobs(tier, seed) if x.get('name') != 'hist']:
         if j['cfg']['symnames'] or j['cfg']['pad'] >= 0: continue
         cfg = dict(j['cfg']); cfg['source'] = 0
         out.append({'entry': 'h_c14', 'harness': 'h_c01.cpp', 'cfg': cfg, 'name': 'api-built'})
